@@ -133,12 +133,18 @@ theorem source_scheduler_pass_is_model (cfg : Cfg) (ref : Vals) (due : List Due)
     PresolveProg.interpStep cfg ref due first cnt s = loopStep cfg ref due cnt s :=
   PresolveProg.generated_body_is_loopStep cfg ref due first cnt s
 
-/-- the whole method as regenerated from the source (prologue: check, two stable sorts, first-step override; loop) is the
-hand-written `presolve` that all scheduler theorems of this file are about -/
-theorem source_scheduler_is_model (cfg : Cfg) (first : Bool) (s : St) :
+/-- the whole method as regenerated from the source (prologue: check, two stable sorts, first-step override / clamp; loop) is, on
+every state with `prev < sim_time` (all states of a run: `Inv.lt`), the hand-written `presolve` that all scheduler theorems of this file are about -/
+theorem source_scheduler_is_model (cfg : Cfg) (first : Bool) (s : St) (hlt : s.prevTime < s.simTime) :
     PresolveProg.interpLoop cfg s.vals (PresolveProg.runPrologue cfg first s Gen.PresolveShape.prologue) first
         (presolveFuel cfg (PresolveProg.runPrologue cfg first s Gen.PresolveShape.prologue) s) 0 s = presolve cfg first s :=
-  PresolveProg.generated_method_is_presolve cfg first s
+  PresolveProg.generated_method_is_presolve cfg first s hlt
+
+/-- the clamp of every backtrack into the step (`else` branch of the first-step override, /repo 7d8c4ce1) is the identity
+on the backtracks of time conditions, which lie inside the step anyway (`backtrack_inside_step`) -/
+theorem clamp_id_of_inside (b sim prev : Int) (h0 : 0 ≤ b) (h1 : b < sim - prev) :
+    min (max b 0) (max (sim - prev - 1) 0) = b :=
+  PresolveProg.clamp_id_of_inside b sim prev h0 h1
 
 /-! ## Part B — the scheduler -/
 
